@@ -303,6 +303,7 @@ def report(c, binp, work, flagged, inv, rej, validated):
     for sc in flagged:
         cross_check(sc, inv.get(sc["uid"], set()), rej.get(sc["uid"]), validated)
         groups.setdefault(sig_of(sc, rej.get(sc["uid"])), []).append(sc)
+    unreproduced, reported = [], 0
     for sig, scs in sorted(groups.items())[:6]:
         scs.sort(key=lambda s: (s["kind"] != "schedule", -len(s.get("findings") or []), len(s["events"])))
         chosen, replay = None, None
@@ -317,13 +318,19 @@ def report(c, binp, work, flagged, inv, rej, validated):
                 chosen = sc
                 break
         if chosen is None:
-            raise vlib.Inconclusive("findings with signature %s did not reproduce (e.g. scenario %s)" % (sig, scs[0]["id"]))
+            unreproduced.append("%s (e.g. scenario %s)" % (sig, scs[0]["id"]))
+            continue
+        reported += 1
         sc = chosen
         obs = dict(sc["observation"])
         obs["batches"] = [(b["ep"], b["ids"]) for b in obs.get("batches") or []]
         replay.update(findings=sc.get("findings"), tlc_invariants=sorted(inv.get(sc["uid"], set())),
                       rejected_event=rej.get(sc["uid"]), observation=obs, events=fmt_events(sc["events"], 400))
-        parts = ["%s: %s" % (f["oracle"], f["text"]) for f in sc.get("findings") or []]
+        parts, seen = [], set()
+        for f in sc.get("findings") or []:
+            if f["oracle"] not in seen:
+                seen.add(f["oracle"])
+                parts.append("%s: %s" % (f["oracle"], f["text"]))
         if rej.get(sc["uid"]) is not None:
             parts.append("trace is not a behaviour of Replication.tla: event %s cannot be explained" % json.dumps(rej[sc["uid"]]))
         if not parts:
@@ -335,6 +342,10 @@ def report(c, binp, work, flagged, inv, rej, validated):
         text = "%s%s [scenario %s (%s); produced=%d persisted=%d acknowledged since the last reset=%s; %d scenario(s) with this signature]" % (
             head, " | ".join(parts), sc["id"], sc["kind"], obs["produced"], obs["persisted"], obs.get("gotSinceReset"), len(scs))
         c.violation(sig, text, replay)
+    if unreproduced:
+        c.note("findings that did not reproduce when run again: " + "; ".join(unreproduced))
+        if not reported:
+            raise vlib.Inconclusive("findings did not reproduce: " + "; ".join(unreproduced))
 
 
 # ----------------------------------------------------------------------------- main
